@@ -332,7 +332,7 @@ func (x *Exec) applyHavoc(st *State, pre *State, spec *FuncSpec, mods []modTarge
 				var under [][2]string
 				x.elemLeaves(m.typ, m.key, &under)
 				for _, u := range under {
-					x.leaf(u[0], 0, u[1])
+					x.leaf(u[0], strings.Count(u[0], "[]"), u[1]) // one index level per array on the path
 				}
 			}
 			// every leaf whose key is m.key or extends it
